@@ -38,6 +38,7 @@ pub fn fault_case_strategy(thorough: bool) -> BoxedStrategy<Case> {
                     "change_priority" | "change_priority_by" | "remove" | "pop" | "pop_if" => 8,
                     "push_increase" | "push_decrease" => 4,
                     "retain" | "retain_mut" | "extend" | "append" | "from_iter" | "from_vec" | "iter_mut" => 4,
+                    "clone" => 6,
                     "adaptor" | "eq" | "sorted" | "reserve" | "shrink_to_fit" | "get" | "get_mut" | "peek_mut" | "into_vec" | "iter" => 1,
                     _ => w.min(2),
                 },
@@ -213,8 +214,21 @@ fn fault_run<Q: Queue>(case: &Case, stats: &mut Stats) -> Result<bool, Failure> 
                         };
                         start_tick_count();
                         let _ = guarded_apply(&mut c, inner);
-                        stop_tick_count()[*kind as usize]
+                        stop_tick_count()
                     };
+                    // the generated kind if the operation calls it at all, else the next kind (in a
+                    // rotation derived from k) that it does call: (almost) every fault step fires
+                    let mut kind = kind;
+                    if ticks[*kind as usize] == 0 {
+                        for j in 1..FAULT_KINDS.len() {
+                            let cand = &FAULT_KINDS[(*kind as usize + j + (*k as usize % 3)) % FAULT_KINDS.len()];
+                            if ticks[*cand as usize] > 0 {
+                                kind = cand;
+                                break;
+                            }
+                        }
+                    }
+                    let ticks = ticks[*kind as usize];
                     if ticks == 0 {
                         stats.hit("fault_no_callback_of_kind");
                         guarded_apply(&mut it, inner);
